@@ -411,7 +411,11 @@ class TreeTransformBase(TreeTransform):
                 continue
             no_children = True
             for child_id in children:
-                if self.final_kind(child_id) is not None:
+                # A child without contents still counts while it stays
+                # versioned: its inventory entry needs a directory parent.
+                if self.final_kind(child_id) is not None or self.final_is_versioned(
+                    child_id
+                ):
                     no_children = False
                     break
             if no_children:
